@@ -402,7 +402,8 @@ class Model:
     # helpers for properties
     def stuck(self, s, t):
         """nobody can move although somebody has not finished (deadlock / lost wake-up); only defined for steps < depth"""
-        if t >= len(self.enabled):
+        if t != len(self.enabled) - 1:
+            # a state in which nobody can move stutters to the end of the unrolling: looking at the last step is enough
             return z3.BoolVal(False)
         return z3.And(z3.Not(self.all_done(s)), z3.Not(z3.Or(*self.enabled[t])))
 
